@@ -126,6 +126,7 @@ def check_missing(tc, rec):
             labs.append("time_not_increasing")
             if [order[j] for j in order] != list(range(len(t_))):
                 labs.append("permutation_not_involution")
+        labs.append(f"time_axis={tc.get('time_axis', 'permuted')}")
     rec.note(nt, labs + [f"carrier={tc.get('carrier', 'f64')}"])
     t = REG()[tc["test"]]
     C = carriers.Carrier(data=tc.get("carrier", "f64"), junk=tc.get("junk", 0.0))
@@ -159,7 +160,16 @@ def unordered_case(draw, tier="quick"):
     predicate is judged (which flag a present point deserves on an unordered axis is not C02's business)."""
     tc = draw(any_case(tier, ["roc", "speed", "climatology"]))
     t = list(tc["case"]["t"])
-    tc["case"]["t"] = list(draw(st.permutations(t)))
+    how = draw(st.sampled_from(["permuted", "permuted", "repeated", "same_second"]))
+    if how == "permuted":
+        t = list(draw(st.permutations(t)))
+    else:
+        # a repeated record / several fixes within one second: no whole second elapses between neighbours
+        for i in range(1, len(t)):
+            if draw(st.integers(0, 2)) == 0:
+                t[i] = t[i - 1] if how == "repeated" else t[i - 1] + draw(st.sampled_from([0.125, 0.5, 0.875]))
+    tc["case"]["t"] = t
+    tc["time_axis"] = how
     tc["carrier"] = draw(st.sampled_from(CARRIERS))
     tc["unordered"] = True
     return tc
